@@ -159,6 +159,13 @@ pub fn install_hook() {
                 || file.contains("/rustlib/")
                 || file.contains("/library/");
             let in_harness = !loc_in_repo && (!loc_in_lib || repo_file.is_empty());
+            // A repo function inlined into the monitor leaves no frame of its own in the
+            // backtrace; the panic location still names the repo file.
+            let (repo_function, repo_file) = if loc_in_repo && repo_file.is_empty() {
+                ("<inlined>".to_string(), rel_repo(&file).unwrap_or_default())
+            } else {
+                (repo_function, repo_file)
+            };
             let quiet = QUIET.with(|q| *q.borrow());
             if !quiet {
                 eprintln!("[panic] {file}:{line}: {message} (repo frame: {repo_function} in {repo_file})");
